@@ -105,6 +105,7 @@ type srcOpts struct {
 	Deleg       bool   // link the delegate generators D2..D4
 	Import      string // "dot" (default) | "named" | "renamed"
 	Trailing    string // "needed" (default) | "always"
+	Form        string // declaration form of the generators: "" | method | generic | lit | nestedlit
 	Stage       bool   // keep the unoptimised stage (C07)
 	Opt         bool   // declare the helpers of the eta-shape closures in every package
 	By          bool   // programs are bystanders: plain functions next to a generator (C13)
@@ -388,7 +389,7 @@ func runSrcFamilyN(c *vf.Check, cases []srcCase, callsOf func(i int) int, o srcO
 	}
 
 	// go-co packages: one program per file, PerPkg per package
-	coR := &srcRenderer{md: coMode, api: api}
+	coR := &srcRenderer{md: coMode, api: api, form: o.Form}
 	hdr := func(pkg string) string {
 		if o.By {
 			// a side-effect import and an import used only by non-generator code: both must survive
